@@ -156,6 +156,18 @@ pub fn clock_advance(ns: i64) -> bool {
     true
 }
 
+extern "C" {
+    fn nanosleep(req: *const [i64; 2], rem: *mut [i64; 2]) -> i32;
+}
+
+/// Relative sleep that the clock shim cannot distort. (std's park_timeout / Condvar::wait_timeout
+/// compute an ABSOLUTE deadline from CLOCK_MONOTONIC; after a simulated clock jump of 30 days
+/// they would sleep for 30 days.)
+pub fn raw_sleep_us(us: u64) {
+    let req = [(us / 1_000_000) as i64, ((us % 1_000_000) * 1000) as i64];
+    unsafe { nanosleep(&req, std::ptr::null_mut()) };
+}
+
 /// Real elapsed time source for the simulator's own watchdog: CLOCK_MONOTONIC_RAW, which the
 /// shim never touches.
 pub fn raw_now_ns() -> i64 {
